@@ -780,14 +780,14 @@ Examples:
     collapse = {}
     #XXX: any vectorized way to do this?
     for i,j in pairs: #XXX: sorted(sorted(pair) for pair in pairs): # ordering?
-        found = False
-        for k,v in collapse.items():
-            if i in (k,) or i in v:
-                v.add(j); found = True; break
-            if j in (k,) or j in v:
-                v.add(i); found = True; break
+        found = [k for k,v in collapse.items() if i in (k,) or i in v or j in (k,) or j in v]
         if not found:
             collapse[i] = set((j,))
+            continue
+        k = found[0]
+        for m in found[1:]: # the pair connects existing groups, so merge them
+            collapse[k].update(collapse.pop(m)); collapse[k].add(m)
+        collapse[k].update((i,j)); collapse[k].discard(k)
     return collapse
 
 
